@@ -275,25 +275,16 @@ func ruleR051(c *Ctx) {
 					}
 				}
 				if role.factory >= 0 && role.factory < len(call.Args) {
-					ok := false
-					if fac, isLit := ast.Unparen(call.Args[role.factory]).(*ast.FuncLit); isLit {
-						ok = true
-						n := 0
-						inspectNoLit(fac.Body, func(x ast.Node) bool {
-							if r, isRet := x.(*ast.ReturnStmt); isRet && len(r.Results) == 1 {
-								n++
-								if m, isLit := ast.Unparen(r.Results[0]).(*ast.FuncLit); !isLit || !c.startsWithRecoveringDefer(pkg, m.Body) {
-									ok = false
-								}
-							}
-							return true
-						})
-						if n == 0 {
-							ok = false
-						}
+					products, unknown := c.factoryProducts(pkg, call.Args[role.factory])
+					if unknown != "" {
+						c.Undecided(key, call.Pos(), "%s", unknown)
+						return true
 					}
-					if !ok {
-						problems = append(problems, "the function produced by the worker factory does not start with a deferred function that itself calls recover(): a panic in the mapped closure on a worker goroutine terminates the process")
+					for _, pr := range products {
+						if !c.startsWithRecoveringDefer(pr.pkg, pr.lit.Body) {
+							problems = append(problems, "the function produced by the worker factory does not start with a deferred function that itself calls recover(): a panic in the mapped closure on a worker goroutine terminates the process")
+							break
+						}
 					}
 				}
 				if role.yieldG {
@@ -697,4 +688,73 @@ func ruleR053(c *Ctx) {
 	if n < 3 {
 		c.Undecided("value#integer-operations", token.NoPos, "expected at least the %% << >> operators, found %d sites", n)
 	}
+}
+
+// factoryProduct is a worker function that a worker factory hands out, with
+// the syntactic scope that is executed once per product (the factory literal,
+// or the private constructor function the factory delegates to).
+type factoryProduct struct {
+	lit   *ast.FuncLit
+	scope ast.Node
+	pkg   *packages.Package
+}
+
+// factoryProducts resolves the functions a worker factory returns. Accepted
+// shapes: func() F { ...; return func(...){...} } and
+// func() F { return newWorker(args) } with newWorker a function of the
+// repository whose only return is a function literal. unknown is a
+// description of a shape that is not understood (the caller reports it as
+// undecided, not as a violation).
+func (c *Ctx) factoryProducts(pkg *packages.Package, fac ast.Expr) (res []factoryProduct, unknown string) {
+	lit, ok := ast.Unparen(fac).(*ast.FuncLit)
+	if !ok {
+		return nil, "the worker factory " + nodeStr(c.Fset, fac) + " is not a function literal"
+	}
+	info := pkg.TypesInfo
+	n := 0
+	inspectNoLit(lit.Body, func(x ast.Node) bool {
+		r, isRet := x.(*ast.ReturnStmt)
+		if !isRet || len(r.Results) != 1 {
+			return true
+		}
+		n++
+		switch t := ast.Unparen(r.Results[0]).(type) {
+		case *ast.FuncLit:
+			res = append(res, factoryProduct{lit: t, scope: lit, pkg: pkg})
+		case *ast.CallExpr:
+			cal := Callee(info, t)
+			var fd *ast.FuncDecl
+			var p *packages.Package
+			if cal != nil && cal.Pkg() != nil {
+				if p = c.Pkgs[cal.Pkg().Path()]; p != nil {
+					fd = findFuncDecl(p, cal)
+				}
+			}
+			if fd == nil || fd.Body == nil {
+				unknown = "the worker factory returns " + nodeStr(c.Fset, t) + ", whose body is not available"
+				return true
+			}
+			var inner *ast.FuncLit
+			nRet := 0
+			inspectNoLit(fd.Body, func(y ast.Node) bool {
+				if rr, ok := y.(*ast.ReturnStmt); ok && len(rr.Results) == 1 {
+					nRet++
+					inner, _ = ast.Unparen(rr.Results[0]).(*ast.FuncLit)
+				}
+				return true
+			})
+			if nRet != 1 || inner == nil {
+				unknown = "the worker constructor " + cal.Name() + " does not simply return a function literal"
+				return true
+			}
+			res = append(res, factoryProduct{lit: inner, scope: fd, pkg: p})
+		default:
+			unknown = "the worker factory returns " + nodeStr(c.Fset, t)
+		}
+		return true
+	})
+	if n == 0 && unknown == "" {
+		unknown = "the worker factory has no return"
+	}
+	return
 }
